@@ -164,7 +164,7 @@ def _qcow2(rng, ctx, c, cnt, sample, res, with_snaps=False):
     img, dataf, meta = wq.build(rng, cluster_bits=cb, size=size, views=views, version=ver, header_length=hl, extensions=exts, backing_name=bname,
                                 external_data=external and bool(datafile_named), data_file_name=datafile_named[0] if datafile_named else None,
                                 placement="shuffle", snapshots_meta=metas, l1_extra=rng.choice([0, 2]), compat=compat, autoclear=autoclear,
-                                refcount_order=rng.choice([4, 4, 3, 6]))
+                                refcount_order=rng.choice([4, 4, 3, 6]), rand_info=False)
     ext_on = external and bool(datafile_named)
     q = _open(QCow2, as_handle(img.to_bytes()), data_file=as_handle(dataf.to_bytes()) if ext_on else None,
               backing_file=ALLOW_NO_BACKING_FILE if bname else None)
